@@ -160,3 +160,6 @@ m("C18", ["R49"], HY, "        if self < 1.0 {\n            return Self::NAN;\n 
 m("C15", ["R39"], EX, "        } else if self.hi < -0.5 {", "        } else if self.hi < -2.0 {", "fix D11 disabled: ln_1p next to -1 starts from log1p(hi) again")
 m("C15", ["R39"], EX, "            (1.0 + self).ln()", "            Self::from(1.0 + self.hi).ln()", "ln_1p next to -1 drops the low word when forming 1 + x")
 m("C10", ["R16"], NI, "        self.hi.is_nan() || self.lo.is_nan()\n    }\n}\n\nimpl num_traits::NumCast", "        self.hi.is_nan()\n    }\n}\n\nimpl num_traits::NumCast", "a new inherent is_nan that reads the high word only, next to trait methods that read both (entry points no longer agree with their inherent counterpart)", on="G0-3")
+m("C16", ["R41", "R43"], TR, "    iter.fold(*init, |a, n| x * a + n)", "    iter.fold(*init, |a, n| x * a - n)", "Horner step over the descending sine table subtracts the coefficient", on="J1-3")
+m("C14", ["R35", "R39d"], EX, "        let x0 = n * 0.0078125; // n / 128, exact", "        let x0 = n * 0.0078; // n / 128", "reciprocal multiplication with a constant that is not 2^-7", on="J1-6")
+m("C14", ["R35"], EX, "            let y = libm::round(self.hi + self.hi);", "            let y = libm::round(self.hi + self.lo);", "h + h (accepted for 2.0 * h) mistyped as hi + lo", on="J1-6")
